@@ -91,6 +91,7 @@ type leafPath struct {
 	viaArr bool
 	// resolvable from the context alone: every node on the way is reached through a property-scoped context
 	ctxResolvable bool
+	mustFail      bool // no such member: every resolver must report an error
 }
 
 func leafPaths(n *ANode, pre []string, viaArr, ctxOK bool, out *[]leafPath) {
@@ -104,11 +105,11 @@ func leafPaths(n *ANode, pre []string, viaArr, ctxOK bool, out *[]leafPath) {
 			}
 			switch {
 			case v.Lit != nil:
-				*out = append(*out, leafPath{p, v.Lit, "", f.Term, arr, ctxOK})
+				*out = append(*out, leafPath{p, v.Lit, "", f.Term, arr, ctxOK, false})
 			case v.Node != nil:
 				leafPaths(v.Node, p, arr, ctxOK && f.Term.Scoped, out)
 			default:
-				*out = append(*out, leafPath{p, nil, v.Ref, f.Term, arr, ctxOK})
+				*out = append(*out, leafPath{p, nil, v.Ref, f.Term, arr, ctxOK, false})
 			}
 		}
 	}
@@ -167,6 +168,27 @@ func emitC11Doc(out *Out, r *Rng) {
 	leafPaths(root, nil, false, true, &lps)
 	// plus unresolvable paths
 	lps = append(lps, leafPath{dotted: []string{"noSuchTerm"}}, leafPath{dotted: []string{root.Fields[0].Term.Name, "deeper", "x"}}, leafPath{dotted: []string{""}})
+	// ... and positions beyond the end of an array, as the last segment and in the middle of a path
+	nOut := 0
+	for _, lp := range append([]leafPath{}, lps...) {
+		if !lp.viaArr || nOut >= 4 {
+			continue
+		}
+		for _, last := range []bool{true, false} {
+			d := append([]string{}, lp.dotted...)
+			at := -1
+			for i, sgm := range d {
+				if sgm != "" && sgm[0] >= '0' && sgm[0] <= '9' && (at < 0 || last) {
+					at = i
+				}
+			}
+			if at >= 0 {
+				d[at] = fmt.Sprint(50 + g.r.Intn(900))
+				lps = append(lps, leafPath{dotted: d, viaArr: true, mustFail: true})
+				nOut++
+			}
+		}
+	}
 	rootType := g.sch.Root.Name
 	for _, lp := range lps {
 		dotted := strings.Join(lp.dotted, ".")
@@ -200,6 +222,9 @@ func emitC11Doc(out *Out, r *Rng) {
 				}
 				if (lp.lit != nil || lp.ref != "") && (!stored || posFail) {
 					why = append(why, fmt.Sprintf("path %s resolves to %v, under which nothing is stored", dotted, rp.Parts()))
+				}
+				if lp.mustFail {
+					why = append(why, fmt.Sprintf("path %s names a position beyond the end of the array but resolves to %v instead of an error", dotted, rp.Parts()))
 				}
 			} else if lp.lit != nil || lp.ref != "" {
 				why = append(why, fmt.Sprintf("existing field %s cannot be resolved from the document: %v", dotted, err))
@@ -276,9 +301,9 @@ func emitC11Doc(out *Out, r *Rng) {
 func emitC11Shapes(out *Out) {
 	type shape struct {
 		name, ctx, doc, path string
-		typ, field          string
-		wantStored          bool
-		tags                []string
+		typ, field           string
+		wantStored           bool
+		tags                 []string
 	}
 	ctxD8 := `{"@context":{"@version":1.1,"x":"urn:outer#x","p":"urn:v#p","T":{"@id":"urn:T","@context":{"x":"urn:inner#x"}}}}`
 	ctxArr := `{"@context":{"@version":1.1,"items":"urn:v#items","n":{"@id":"urn:v#n","@type":"http://www.w3.org/2001/XMLSchema#integer"},"A":{"@id":"urn:A","@context":{"m":"urn:a#m"}},"B":{"@id":"urn:B","@context":{"m":"urn:b#m"}}}}`
